@@ -414,6 +414,35 @@ def generate():
         out.append(f"def recvTruncatedIsClosed : Bool := {'true' if m else 'false'}")
         out.append("")
     run_unit('Gen', unit_core)
+    def unit_own(out):
+        # ownership of descriptors (C11 / C03): who closes what, exactly once; nothing is inheritable
+        flat = re.sub(r'\s+', '', strip_comments(unix))
+        rcv_drop = 'implDropforOsIpcReceiver{fndrop(&mutself){unsafe{ifself.fd.get()>=0{letresult=libc::close(self.fd.get());assert!(thread::panicking()||result==0);}}}}'
+        consume = 'fnconsume_fd(&self)->c_int{letfd=self.fd.get();self.fd.set(-1);fd}'
+        out.append(f"def shape_receiverOwnsOnce : Bool := {'true' if rcv_drop in flat and consume in flat and 'pubstructOsIpcReceiver{fd:Cell<c_int>,}' in flat else 'false'}  -- Drop closes unless consumed; consume marks -1")
+        shared = ('structSharedFileDescriptor(c_int);implDropforSharedFileDescriptor{fndrop(&mutself){unsafe{letresult=libc::close(self.0);assert!(thread::panicking()||result==0);}}}')
+        sender = '#[derive(PartialEq,Debug,Clone)]pubstructOsIpcSender{fd:Arc<SharedFileDescriptor>,' in flat and 'fd:Arc::new(SharedFileDescriptor(fd)),' in flat
+        out.append(f"def shape_senderSharedDescriptor : Bool := {'true' if shared in flat and sender else 'false'}  -- clones share one descriptor, closed when the last clone drops")
+        opaque = ('implDropforOsOpaqueIpcChannel{fndrop(&mutself){ifself.fd>=0{letresult=unsafe{libc::close(self.fd)};assert!(thread::panicking()||result==0);}}}' in flat
+                  and 'pubfnto_sender(&mutself)->OsIpcSender{OsIpcSender::from_fd(mem::replace(&mutself.fd,-1))}' in flat
+                  and 'pubfnto_receiver(&mutself)->OsIpcReceiver{OsIpcReceiver::from_fd(mem::replace(&mutself.fd,-1))}' in flat)
+        out.append(f"def shape_opaqueOwnsUntilConverted : Bool := {'true' if opaque else 'false'}")
+        setdrop = 'implDropforOsIpcReceiverSet{fndrop(&mutself){for&PollEntry{id:_,fd}inself.pollfds.values(){letresult=unsafe{libc::close(fd)};assert!(thread::panicking()||result==0);}}}' in flat
+        out.append(f"def shape_setClosesMembers : Bool := {'true' if setdrop else 'false'}")
+        store = 'implDropforBackingStore{fndrop(&mutself){unsafe{letresult=libc::close(self.fd);assert!(thread::panicking()||result==0);}}}' in flat
+        unmap = 'implDropforOsIpcSharedMemory{fndrop(&mutself){unsafe{if!self.ptr.is_null(){letresult=libc::munmap(self.ptras*mutc_void,self.length);assert!(thread::panicking()||result==0);}}}}' in flat
+        out.append(f"def shape_regionReleases : Bool := {'true' if store and unmap else 'false'}  -- one close per backing store, one munmap of the mapped length")
+        cloexec = ('#[cfg(target_os="linux")]constSOCK_FLAGS:c_int=libc::SOCK_CLOEXEC;' in flat
+                   and '#[cfg(target_os="linux")]constRECVMSG_FLAGS:c_int=libc::MSG_CMSG_CLOEXEC;' in flat
+                   and 'socketpair(libc::AF_UNIX,SOCK_SEQPACKET|SOCK_FLAGS,0,&mutresults[0],)' in flat
+                   and len(re.findall(r'recvmsg\(fd,&mutself\.msghdr,RECVMSG_FLAGS\)', flat)) == len(re.findall(r'[^_a-z]recvmsg\(', flat)) >= 1
+                   and 'libc::fcntl(self.store.fd(),libc::F_DUPFD_CLOEXEC,0)' in flat and 'libc::dup(' not in flat and 'F_DUPFD,' not in flat
+                   and 'memfd_create(name.as_ptr(),libc::MFD_CLOEXECasusize)' in flat
+                   and len(re.findall(r'libc::socket\(libc::AF_UNIX,SOCK_SEQPACKET\|SOCK_FLAGS,0\)', flat)) == len(re.findall(r'libc::socket\(', flat)) >= 1
+                   and 'libc::accept4(self.fd,sockaddr,sockaddr_len,SOCK_FLAGS)' in flat and 'libc::accept(' not in flat)
+        out.append(f"def shape_everythingCloexec : Bool := {'true' if cloexec else 'false'}  -- socketpair, socket, accept4, recvmsg, dup, memfd")
+    run_unit('GenOwn', unit_own)
+
     def unit_set(out):
         # receiver set (C06 / C07 / C19): ids, registration, the wait, the per-member drain loop
         mo = re.search(r'impl OsIpcReceiverSet \{', unix)
